@@ -150,7 +150,9 @@ fn read_character_value<'a>(src: &mut &'a [u8]) -> io::Result<Option<Value<'a>>>
 fn read_character_array_value<'a>(src: &mut &'a [u8]) -> io::Result<Option<Value<'a>>> {
     match read_typed_value(src)? {
         None | Some(TypedValue::String(None)) => Ok(None),
-        Some(TypedValue::String(Some(s))) => Ok(Some(Value::Array(Array::Character(Box::new(s))))),
+        Some(TypedValue::String(Some(s))) => Ok(Some(Value::Array(Array::Character(Box::new(
+            Characters(s),
+        ))))),
         v => Err(type_mismatch_error(v, Type::Character)),
     }
 }
@@ -166,8 +168,58 @@ fn read_string_value<'a>(src: &mut &'a [u8]) -> io::Result<Option<Value<'a>>> {
 fn read_string_array_value<'a>(src: &mut &'a [u8]) -> io::Result<Option<Value<'a>>> {
     match read_typed_value(src)? {
         None | Some(TypedValue::String(None)) => Ok(None),
-        Some(TypedValue::String(Some(s))) => Ok(Some(Value::Array(Array::String(Box::new(s))))),
+        Some(TypedValue::String(Some(s))) => {
+            Ok(Some(Value::Array(Array::String(Box::new(Strings(s))))))
+        }
         v => Err(type_mismatch_error(v, Type::String)),
+    }
+}
+
+// BCF stores Character and String arrays as raw text: elements are separated by `,`, `.` is a
+// missing element, and nothing is percent-encoded. These views decode the text like
+// `resolve_character_array_value` and `resolve_string_array_value` do.
+
+const ARRAY_DELIMITER: char = ',';
+
+struct Characters<'a>(&'a str);
+
+impl<'a> vcf::variant::record::info::field::value::array::Values<'a, char> for Characters<'a> {
+    fn len(&self) -> usize {
+        self.0
+            .split(ARRAY_DELIMITER)
+            .map(|t| t.chars().count())
+            .sum()
+    }
+
+    fn iter(&self) -> Box<dyn Iterator<Item = io::Result<Option<char>>> + '_> {
+        const MISSING: char = '.';
+
+        Box::new(
+            self.0
+                .split(ARRAY_DELIMITER)
+                .flat_map(|t| t.chars())
+                .map(|c| match c {
+                    MISSING => Ok(None),
+                    _ => Ok(Some(c)),
+                }),
+        )
+    }
+}
+
+struct Strings<'a>(&'a str);
+
+impl<'a> vcf::variant::record::info::field::value::array::Values<'a, Cow<'a, str>> for Strings<'a> {
+    fn len(&self) -> usize {
+        self.0.split(ARRAY_DELIMITER).count()
+    }
+
+    fn iter(&self) -> Box<dyn Iterator<Item = io::Result<Option<Cow<'a, str>>>> + '_> {
+        const MISSING: &str = ".";
+
+        Box::new(self.0.split(ARRAY_DELIMITER).map(|t| match t {
+            MISSING => Ok(None),
+            _ => Ok(Some(Cow::from(t))),
+        }))
     }
 }
 
@@ -370,6 +422,8 @@ mod tests {
         t(&[0x37, 0x6e, 0x2c, 0x64], &[Some('n'), Some('d')]);
         // Some(Value::String(Some(String::from("n,."))))
         t(&[0x37, 0x6e, 0x2c, 0x2e], &[Some('n'), None]);
+        // Some(Value::String(Some(String::from("nd"))))
+        t(&[0x27, 0x6e, 0x64], &[Some('n'), Some('d')]);
     }
 
     #[test]
@@ -412,5 +466,7 @@ mod tests {
 
         // Some(Value::String(Some(String::from("n,ls"))))
         t(&[0x47, 0x6e, 0x2c, 0x6c, 0x73], &[Some("n"), Some("ls")]);
+        // Some(Value::String(Some(String::from("%41,."))))
+        t(&[0x57, 0x25, 0x34, 0x31, 0x2c, 0x2e], &[Some("%41"), None]);
     }
 }
